@@ -973,8 +973,40 @@ class Unit:
                     ee -= 1
                 edits.append(Edit(ee, ee, " }", ("gen", "arm-brace")))
             else:
-                # statement-level insertion: must come before any wrapper a rewrite opens at the same token
-                edits.append(Edit(i, i, "\n" + tpl_text(lines), ("tpl", relname, lines[0][1] - 1), order=-1))
+                # statement-level insertion: go back to the start of the statement that contains the anchor
+                # (after the previous `;`, `{` or `}` at the same nesting depth), so that an anchor in the middle
+                # of `let r = <anchor>...;` still yields well-formed code
+                depth = 0
+                y = x
+                while y > 0:
+                    pt = toks[sgb[y - 1]]
+                    if pt.kind == "punct":
+                        if pt.text in ")]":
+                            depth += 1
+                        elif pt.text in "([":
+                            if depth == 0:
+                                break
+                            depth -= 1
+                        elif pt.text == "}":
+                            if depth == 0:
+                                break
+                            depth += 1
+                        elif pt.text == "{":
+                            if depth == 0:
+                                break
+                            depth -= 1
+                        elif pt.text == ";" and depth == 0:
+                            break
+                        elif pt.text == "," and depth == 0:
+                            break
+                    y -= 1
+                if y > 0 and toks[sgb[y - 1]].text in ("(", "[", ","):
+                    y = x   # inside an argument list / array: no statement position, keep the anchor itself
+                if y > 1 and toks[sgb[y - 1]].text == ">" and toks[sgb[y - 2]].text == "=":
+                    y = x
+                ins = sgb[y]
+                # must come before any wrapper a rewrite opens at the same token
+                edits.append(Edit(ins, ins, "\n" + tpl_text(lines), ("tpl", relname, lines[0][1] - 1), order=-1))
         for k, tok, lines in fs.after:
             words = [t.text for t in L.tokenize(tok) if t.kind != "ws"]
             occ = [x for x in range(len(sgb)) if _seq_at(toks, sgb, x, words)]
